@@ -2036,6 +2036,39 @@ def _np_linspace(start, stop, num=50, endpoint=True, **kw):
     return SymArray(out)
 
 
+def _np_broadcast_arrays(*arrays, subok=False):
+    outs = np.broadcast_arrays(*[_obj(a) for a in arrays])
+    return [SymArray(o.copy()) for o in outs]
+
+
+def _np_minmax(kind):
+    """numpy.max / numpy.min (amax / amin) with the optional `where=` mask and `initial=` value"""
+    def f(x, axis=None, out=None, keepdims=False, initial=None, where=None, **kw):
+        if out is not None:
+            raise Unsupported(f"numpy.{kind}(out=...)")
+        xa = SymArray(_obj1(x))
+        pick = _maximum if kind == "max" else _minimum
+        if where is not None and where is not True:
+            if initial is None:
+                raise ValueError(f"reduction operation '{'maximum' if kind == 'max' else 'minimum'}' does not have an identity, so to use a where mask one has to specify 'initial'")
+            xa = _np_where(where, xa, initial)
+            if not isinstance(xa, SymArray):
+                xa = SymArray(_obj(xa))
+        r = xa.max(axis, keepdims) if kind == "max" else xa.min(axis, keepdims)
+        if initial is not None:
+            r = ew(lambda e: pick(tf(e), tf(initial)), r)
+        return r
+    return f
+
+
+def _signbit(a):
+    """numpy.signbit: in Mode F the sign bit itself (set for -0.0); Mode R has no signed zero, so `a < 0`"""
+    a = tf(a)
+    if isinstance(a, FFloat):
+        return SymBool(z3.And(z3.fpIsNegative(a.f), z3.Not(z3.fpIsNaN(a.f))))
+    return _lt(a, const(0.0))
+
+
 def _np_select(condlist, choicelist, default=0):
     """numpy.select: the first condition that holds picks its choice, `default` where none does"""
     if len(condlist) != len(choicelist):
@@ -2095,7 +2128,7 @@ def _has_sym(x):
 
 TABLE = {
     "isnan": _lift(_isnan), "isinf": _lift(_isinf), "isfinite": _lift(_isfinite),
-    "where": _np_where, "select": _np_select, "piecewise": _np_piecewise, "maximum": _lift(_maximum), "minimum": _lift(_minimum),
+    "where": _np_where, "signbit": _lift(_signbit), "select": _np_select, "piecewise": _np_piecewise, "maximum": _lift(_maximum), "minimum": _lift(_minimum),
     "fmax": _lift(_fmax), "fmin": _lift(_fmin),
     "sqrt": _lift(_sqrt), "square": _lift(lambda a: _mul(tf(a), tf(a))),
     "absolute": _lift(lambda a: _abs(tf(a))), "fabs": _lift(lambda a: _abs(tf(a))), "abs": _lift(lambda a: _abs(tf(a))),
@@ -2124,10 +2157,8 @@ TABLE = {
     "interp": _np_interp, "asarray": _np_asarray, "array": _np_asarray, "linspace": _np_linspace,
     "ndim": lambda x: _obj(x).ndim, "shape": lambda x: _obj(x).shape,
     "transpose": lambda x, axes=None: SymArray(_obj(x).T),
-    "amax": lambda x, axis=None, keepdims=False, **k: SymArray(_obj1(x)).max(axis, keepdims),
-    "amin": lambda x, axis=None, keepdims=False, **k: SymArray(_obj1(x)).min(axis, keepdims),
-    "max": lambda x, axis=None, keepdims=False, **k: SymArray(_obj1(x)).max(axis, keepdims),
-    "min": lambda x, axis=None, keepdims=False, **k: SymArray(_obj1(x)).min(axis, keepdims),
+    "amax": _np_minmax("max"), "amin": _np_minmax("min"), "max": _np_minmax("max"), "min": _np_minmax("min"),
+    "broadcast_arrays": _np_broadcast_arrays,
     "copy": lambda x, **k: x.copy(),
     "all": lambda x, axis=None, keepdims=False, **k: SymArray(_obj1(x)).all(axis, keepdims=keepdims),
     "any": lambda x, axis=None, keepdims=False, **k: SymArray(_obj1(x)).any(axis, keepdims=keepdims),
@@ -2154,6 +2185,8 @@ def dispatch(name, args, kw):
     f = TABLE.get(name)
     if f is None:
         raise Unsupported(f"symfl: numpy.{name} is not modelled")
+    if name in ("max", "min", "amax", "amin"):
+        return f(*args, **kw)          # reductions: `where=` / `initial=` belong to the reduction, not to a ufunc output
     out = where = None
     if kw:
         out = kw.get("out")
